@@ -34,7 +34,7 @@ Definition entry_eqb (a b : entry) : bool :=
   String.eqb (e_dest a) (e_dest b) && strs_eqb (e_opts a) (e_opts b)
   && opt_eqb String.eqb (e_default a) (e_default b) && String.eqb (e_help a) (e_help b).
 Definition group_eqb (a b : group) : bool :=
-  String.eqb (g_title a) (g_title b) && list_eqb entry_eqb (g_entries a) (g_entries b).
+  String.eqb (g_title a) (g_title b) && String.eqb (g_desc a) (g_desc b) && list_eqb entry_eqb (g_entries a) (g_entries b).
 Definition groups_eqb := list_eqb group_eqb.
 Definition stream_eqb (a b : stream) : bool := match a, b with SOut, SOut | SErr, SErr => true | _, _ => false end.
 Definition view_eqb := list_eqb (fun a b : string * option string =>
@@ -72,6 +72,7 @@ Definition variant_spec_ok (c : case) (v : variant) : bool :=
       ends_well v.(v_end) v.(v_stream)
       && help_describes (layered c.(c_pre) c.(c_cfgf)) v.(v_accepted) c.(c_forest) v.(v_groups)
       && hidden_ok c.(c_forest) v.(v_action_dests) v.(v_hidden)
+      && hidden_not_mentioned c.(c_forest) v.(v_groups)
       && v.(v_format_help_same)
       && (negb v.(v_full)
           || (res_eqb groups_eqb v.(v_api) (Ok v.(v_groups))     (* print_help() shows what --help shows *)
